@@ -875,9 +875,13 @@ func TestDrv_C08(t *testing.T) {
 	gobOne, _ := encodeAll(codecs[0], []vegeta.Result{genResult(r, 0, 10)})
 	junk := [][]byte{{}, []byte("garbage\n"), []byte("\n"), []byte("{\"x\":"), []byte("{}"), []byte("[1,2,3]\n"),
 		[]byte("1,2,3,4,5,6,7,8,9,10,11\n"), []byte("a,b,c,d,e,f,g,h,i,j,k,l\n"), gobOne[:len(gobOne)/2], bytes.Repeat([]byte{0xff, 0x00, 0x7f}, 100)}
+	// (no random blobs here: about one random blob in 12 000 starts with the two bytes of a well-formed, empty gob message and
+	// is rightly taken for gob - "in none of the formats" can only be said of inputs built not to be)
 	for i := 0; i < 20; i++ {
-		b := make([]byte, 1+r.Intn(300))
-		r.Read(b)
+		b := []byte(genText(r, 300) + "\n") // random text lines: no JSON object, not twelve CSV columns, no gob length prefix
+		if len(b) > 0 && b[0] < 0x20 {
+			b[0] = 'x'
+		}
 		junk = append(junk, b)
 	}
 	for _, j := range junk {
